@@ -215,3 +215,28 @@ def handler_type_names(model, mod, h):
         anc = model.exc_ancestors(mod, t)
         out.append(anc[0] if anc else (dotted_name(t) or norm(t)))
     return out
+
+
+def option_reads(expr, options_name, key):
+    """[(polarity, default node or None, call)] for every `<options>.get('<key>'[, default])` inside expr; polarity is
+    True when the read stands un-negated (as the whole test or as a conjunct of an and-chain), False under `not`,
+    None when it is buried in something else (comparison, or-chain, call argument)."""
+    out = []
+
+    def rec(e, pol):
+        if isinstance(e, ast.UnaryOp) and isinstance(e.op, ast.Not):
+            rec(e.operand, (not pol) if pol is not None else None)
+            return
+        if isinstance(e, ast.BoolOp) and isinstance(e.op, ast.And):
+            for v in e.values:
+                rec(v, pol)
+            return
+        if isinstance(e, ast.Call) and isinstance(e.func, ast.Attribute) and e.func.attr == 'get' and \
+                isinstance(e.func.value, ast.Name) and e.func.value.id == options_name and e.args and \
+                isinstance(e.args[0], ast.Constant) and e.args[0].value == key:
+            out.append((pol, e.args[1] if len(e.args) > 1 else None, e))
+            return
+        for c in ast.iter_child_nodes(e):
+            rec(c, None)
+    rec(expr, True)
+    return out
